@@ -400,6 +400,16 @@ func (r *Runner) assignVal(name string, prev expand.Variable, as *syntax.Assign,
 	prev.Set = true
 	if as.Value != nil {
 		s := r.literal(as.Value)
+		if as.Append && as.Index != nil {
+			// name[index]+=s appends to that element alone; the caller
+			// stores the resulting string at the index.
+			old := r.literal(&syntax.Word{Parts: []syntax.WordPart{
+				&syntax.ParamExp{Param: as.Name, Index: as.Index},
+			}})
+			prev.Kind = expand.String
+			prev.Str = old + s
+			return name, prev
+		}
 		if !as.Append {
 			prev.Kind = expand.String
 			if valType == "-n" {
